@@ -216,3 +216,30 @@ func Equal(a, b [][]byte) bool {
 	}
 	return true
 }
+
+// LabelStarts returns the offsets in the presentation string s at which labels start (forward scan:
+// a backslash consumes the next character, or three digits). The root "." has none.
+func LabelStarts(s string) []int {
+	if s == "." || s == "" {
+		return nil
+	}
+	starts := []int{0}
+	for i := 0; i < len(s); {
+		switch {
+		case s[i] == '\\':
+			if i+3 < len(s) && digit(s[i+1]) && digit(s[i+2]) && digit(s[i+3]) {
+				i += 4
+			} else {
+				i += 2
+			}
+		case s[i] == '.':
+			i++
+			if i < len(s) {
+				starts = append(starts, i)
+			}
+		default:
+			i++
+		}
+	}
+	return starts
+}
